@@ -38,6 +38,7 @@ func main() {
 			fmt.Fprintln(os.Stderr, "finish:", err)
 			os.Exit(3)
 		}
+		os.Exit(0) // do not wait for goroutines a stream may have abandoned
 	case "sites":
 		if err := runSites(prop, *out); err != nil {
 			fmt.Fprintln(os.Stderr, "sites:", err)
